@@ -229,7 +229,14 @@ def main(argv=None):
     def replay_group(item):
         ob, lst = item
         res = []
-        for i, c in lst[:3]:
+        # prefer counterexamples from distinct cases (a clause can be violated in the model without observable effect in a degenerate case)
+        seen_cases, ordered = set(), []
+        for i, c in lst:
+            if c["case"] not in seen_cases:
+                seen_cases.add(c["case"])
+                ordered.append((i, c))
+        ordered += [(i, c) for i, c in lst if (i, c) not in ordered]
+        for i, c in ordered[:8]:
             cex = c.get("cex")
             if cex is None:
                 res.append((c, None, None, "no replayable counterexample was produced"))
